@@ -198,7 +198,7 @@ EXTRA = {
     "C08": "Also decides for Table.traverse that the producer yields `repeated or 1` copies of every XML row from row 0, that the stamp counter starts at the matching constant "
            "and advances once per item, and that the range tests on it are strict and precede the yield (R08f). Round 3: the run arithmetic of the expanding traversals starts from before = x - 1 (R08c, affine) and each yielded row is its own copy (R08f). Round 5: R19g is evaluated here too (a getter addressed through a Table method reaches the row with a coordinate already resolved against the table). Round 7: plural readers take cells from the expanding traversal or from get_cell(keep_repeated=False) (R08g); every copy of a run is cloned from the stored item (R08c); R02d is evaluated here too. Round 9: a wrapper index is read and written under the item index the element is fetched with (R02i shared).",
     "C09": "Also decides that three-way cuts are ordered: the end of a cut is its start plus a provably non-negative length, or both are one regex match span (R09d, sign analysis). Round 4: the element handed to _insert() is newly built, never a node already in the tree (R09e). Round 5: the occurrence counter of the regex-driven inserters accumulates, and start and end mark use one position (R09f). Round 6: P.delete(C) is asked of the element C was found under (R09g); R16i(b) is evaluated here too. Round 7: the position helpers return an entry of the finditer list of the chosen node, the last one for -1 (R09h). Round 8: raw lxml remove() only inside Element.delete (R09i); the text-node queries are compiled text() XPaths (R09j). Round 9: strip_tags is handed collections of tag names, never a bare string (R09k).",
-    "C10": "Also decides that bulk loaders of the part table keep entries already in memory (R10f). Round 3: clone builders hand the clone only copies on every path; Element.clone's holder is local (R10g). Round 4: setters with a clone flag attach a copy whenever the flag may be true (R10h). Round 6: a method without a clone flag passes clone=False only for objects it made or read itself (R10h). Round 8: the pre-load before a container clone is guarded only by packaging, path and absence from the table (R10d); an XmlPart class stores no node of its tree on itself besides tree and root (R10i).",
+    "C10": "Also decides that bulk loaders of the part table keep entries already in memory (R10f). Round 3: clone builders hand the clone only copies on every path; Element.clone's holder is local (R10g). Round 4: setters with a clone flag attach a copy whenever the flag may be true (R10h). Round 6: a method without a clone flag passes clone=False only for objects it made or read itself (R10h). Round 8: the pre-load before a container clone is guarded only by packaging, path and absence from the table (R10d); an XmlPart class stores no node of its tree on itself besides tree and root (R10i). Round 9: every attribute a parsed part keeps outside its bytes is carried over by Document.clone (R10j; one upstream site repaired); a clone receives new empty wrapper indexes (R02f shared).",
     "C11": "Also decides that indented bytes are stored in the container only for parts whose parsed tree stays in the document's cache (R11g). Round 3: nothing is parsed with a content-dropping parser (R11h). Round 4: the flat-XML writer gives every replaced image its own new node (R11i); R11h also covers module-level parsers. Round 5: R03a (what is written is what is in memory) is evaluated here too. Round 7: the encoded image takes the place of the image (R11i); a str method on a node's tag is preceded by a test that the tag is a string (R11j); XmlPart parses its bytes once (R11k). Round 9: no serialisation is remembered on a part (R14i shared).",
     "C02": "Round 3: every reset of a wrapper index assigns its own new empty dict (R02f). Round 4: a wrapper is cached under an item index computed after the last renumbering (R02g). Round 5: R02f also reads whole-attribute assignments of _indexes; no answer of a table class is memoised outside the governed caches (R02h: no cache decorator, no store on self but _indexes[…] in a read-only method; expected count 0, fixture on every run); in the table abstract interpreter the deletion of an unclassified child dirties every map and index. Round 6: R10h is evaluated here too (attaching the caller's own row moves a node while the map counts a new item). Round 9: a wrapper index is read and written under the item index the element is fetched with; index stores through a local alias are followed (R02i, R02g).",
     "C12": "Also decides that no constructor store that may rebuild the element (self.clear() reachable) follows another store on self (R12j), and that no traversal memoises "
